@@ -1,7 +1,10 @@
 #!/usr/bin/env python3
-"""Re-verifies the sub-agents' behaviour-preserving refactorings (/tmp/ref/cxx/out/r*.{diff,json}) in a fresh worktree each
+"""Usage: harvest_refactors.py [srcroot=/tmp/ref] [ks=1,2,3,4] [ids…]
+Re-verifies the sub-agents' behaviour-preserving refactorings (/tmp/ref/cxx/out/r*.{diff,json}) in a fresh worktree each
 (patch applies, builds, vets, whole pinned suite passes) and copies the confirmed ones to /verif/refactors/<Cxx>-r<k>/."""
 import json, os, subprocess, sys, shutil, glob, concurrent.futures as cf
+SRC = sys.argv[1] if len(sys.argv) > 1 else '/tmp/ref'
+KS = [int(x) for x in (sys.argv[2] if len(sys.argv) > 2 else '1,2,3,4').split(',')]
 ENV = dict(os.environ, GOFLAGS='-mod=mod', GOPROXY='off', GOSUMDB='off', GOTOOLCHAIN='local')
 ENV.pop('GOWORK', None)
 def sh(cmd, cwd, timeout=900):
@@ -9,7 +12,7 @@ def sh(cmd, cwd, timeout=900):
     return p.returncode, p.stdout
 def one(item):
     pid, k = item
-    src = f'/tmp/ref/{pid}/out'
+    src = f'{SRC}/{pid}/out'
     meta = json.load(open(f'{src}/r{k}.json'))
     wt = f'/tmp/wt/{pid}r{k}'
     res = {'id': f'{pid.upper()}-r{k}', 'ok': False}
@@ -41,9 +44,12 @@ def one(item):
     finally:
         subprocess.run(['git', '-C', '/repo', 'worktree', 'remove', '--force', wt])
 items = []
-for d in sorted(glob.glob('/tmp/ref/c??/out')):
-    pid = d.split('/')[3]
-    for k in (1, 2, 3, 4):
+only = sys.argv[3:]
+for d in sorted(glob.glob(SRC + '/c??/out')):
+    pid = d.split('/')[-2]
+    if only and pid not in only:
+        continue
+    for k in KS:
         if os.path.exists(f'{d}/r{k}.json') and os.path.exists(f'{d}/r{k}.diff'):
             items.append((pid, k))
 os.makedirs('/tmp/wt', exist_ok=True)
